@@ -138,7 +138,7 @@ def run(ctx):
     nprog, (dmin, dmax) = (1800, (3, 9)) if ctx.quick else (12000, (3, 14))
     ctx.rule = ("random type-directed programs as in C01 plus svd/qr/fuse/unfuse; after EVERY step: structure == Lean model (whose `wf` flag is proved "
                 "sound for WF), is_consistent(), independent selection-rule / ordering / shape / size / fusion-meta oracle, forbidden dense elements zero, "
-                "total-charge table; non-trivial = some result with >=2 blocks; distinct by (sym, policy, op sequence)")
+                "total-charge table; non-trivial = some result with >=2 blocks; distinct by (sym, policy, op sequence); plus initialisers (rand/zeros/ones/eye, diagonal legs that must be rejected) and view relations R1/R3/R7 with is_consistent() on every result")
     budget = 50 if ctx.quick else 800
     for it in range(nprog):
         if ctx.elapsed() > budget:
